@@ -47,6 +47,9 @@ RULES = {
     "A2": rules_lemma.rule_A2,
     "G3c": rules_slice.rule_G3c,
     "Q1": rules_guard.rule_Q1,
+    "G5b": rules_slice.rule_G5b,
+    "G3d": rules_slice.rule_G3d,
+    "E2": rules_except.rule_E2,
 }
 
 SELFTESTS = {"T1": rules_types.selftest_T1}
@@ -80,7 +83,7 @@ PROPS = {
     "C04": {
         "id": "C04",
         "title": "Slices select and assign exactly the numpy-designated elements",
-        "rules": ["G5", "G3", "G3b", "G3c", "G4", "E1", "T1", "D2"],
+        "rules": ["G5", "G5b", "G3", "G3b", "G3c", "G3d", "G4", "E1", "E2", "T1", "D2"],
         "clause": "slice creation rejects by exception every out-of-range start/stop/step combination of the statement; every "
                   "multi-element slice assignment is count-guarded before the first write; no forward copy primitive runs on "
                   "possibly-aliased storage; a slice copy carries the source's index state; materialising a slice cannot "
@@ -95,7 +98,7 @@ PROPS = {
     "C05": {
         "id": "C05",
         "title": "No call corrupts memory or hangs: misuse is reported by exception",
-        "rules": ["G1", "G2", "G3", "G5", "G6", "E1", "A1", "Z1", "Z2", "D2", "G7", "N4", "A2", "Q1"],
+        "rules": ["G1", "G2", "G3", "G5", "G6", "E1", "A1", "Z1", "Z2", "D2", "G7", "N4", "A2", "Q1", "E2"],
         "clause": "guard completeness (mechanisms 1-3 of the anchors): every plan solve() checks the input length with a live "
                   "check before mixing it with plan tables; every foreign-bound subscript and caller-supplied index in a public "
                   "function is dominated by a live relating guard; slices are range-checked at creation and count-checked at "
@@ -185,7 +188,7 @@ PROPS = {
     "C11": {
         "id": "C11",
         "title": "FIR and window designs meet their closed-form specifications",
-        "rules": ["R1", "R2", "N3"],
+        "rules": ["R1", "R2", "N3", "E2"],
         "clause": "a custom window of the wrong length is rejected: on every path from either windowed fir1 overload to a normal "
                   "return a live throwing comparison of win.size() with the order is passed (in the design helper that path calls)",
         "not_decided": "symmetry, DC/Nyquist gain, the Hamming-design masks, the closed forms of all window functions",
